@@ -127,7 +127,8 @@ func c14Scenarios(tier string) []engine.Scenario {
 			if b == "B1" {
 				provs = []string{"google", "fb"}
 			}
-			a = append(a, oauthActs(w, b, provs, []string{"", "rm=true"}, codes)...)
+			// (the third start request passes along parameters named like the fields the provider reports)
+			a = append(a, oauthActs(w, b, provs, []string{"", "rm=true", "uid=9&email=victim%40provider.test&provider=fb"}, codes)...)
 			a = append(a, simple("logout("+b+")", func(s *world.Stack) world.Req { return flows.Logout(s, b) }))
 		}
 		return a
